@@ -31,6 +31,14 @@ class L3:
         self.strict = self.cfg['STRICT_DONE_TOKEN_GENERATION']
         self.layout = absm.Layout(comp.spec, packed_enums=self.cfg['USE_PACKED_ENUMS'])
         self._fields()
+        # length counters: the emitted type must be able to represent 0..capacity (C03); the encoding then follows the emitted width
+        self.counter_findings = []
+        for n in list(self.layout.cnt):
+            bits = self.off[n + '_counter'][1].size() * 8
+            if (1 << bits) <= self.layout.cap[n]:
+                self.counter_findings.append((n, bits, self.layout.cap[n]))
+            if bits != self.layout.cnt[n].w:
+                self.layout.cnt[n] = C.CT(bits, False)
         self.codes = ['OK', 'FAIL', 'DONE'] + ['FINISH_' + c for c in comp.dctx.finish_codes] + ['YIELD_' + c for c in comp.dctx.yield_codes]
         self.nstates = len(comp.dfa.states)
         self.dynstrs = [n for n, o in comp.spec.items() if o.type == OST.STR] if self.dynamic else []
@@ -276,10 +284,10 @@ class L3:
         fn = f'@{self.name}_feed'
         if self.indirect:
             mem.new('startcell', 8, kind='cell')
-            mem.cells[('startcell', 0)] = Ptr(chunk, bv(start_off, 64))
-            args = [Ptr('startcell', bv(0, 64)), Ptr(chunk, bv(nbytes, 64)), Ptr('state', bv(0, 64))]
+            mem.cells[('startcell', 0)] = Ptr(chunk, bv(start_off, 64), 0, nbytes)
+            args = [Ptr('startcell', bv(0, 64)), Ptr(chunk, bv(nbytes, 64), 0, nbytes), Ptr('state', bv(0, 64))]
         else:
-            args = [Ptr(chunk, bv(start_off, 64)), Ptr(chunk, bv(nbytes, 64)), Ptr('state', bv(0, 64))]
+            args = [Ptr(chunk, bv(start_off, 64), 0, nbytes), Ptr(chunk, bv(nbytes, 64), 0, nbytes), Ptr('state', bv(0, 64))]
         return llsym.Exec(self.mod, fn, args, mem, solver, base, max_steps=max_steps, stats=stats, hook_snapshot=self.hook_snapshot)
 
     def call1(self, fname, mem, solver, base, stats, max_steps=4000):
